@@ -15,22 +15,26 @@ from ..phys import bcol, check_equal, component, g, hook_summary, ncol, pit_cols
 from ..source import AnalysisError
 
 EXPLANATION = (
-    "Component hooks are summarised per concrete class by forward substitution (cls./super() resolved through the "
-    "MRO, user-table columns, component arrays and index lookups as symbols, masks as guards). (R3.1) the set of "
-    "flow-prescribing components is computed from the repository (create_pit_branch_entries feeds MDOTINIT from a "
-    "user column); for each, adaption_after_derivatives_hydraulic must write the identity quartet JAC_DERIV_DP=0, "
-    "JAC_DERIV_DP1=0, JAC_DERIV_DM=1, LOAD_VEC_BRANCHES=0 on ONE row selection (all rows, or the control_active rows) "
-    "and leave the other rows untouched. (R3.2) set_fixed_node_entries forms the running mean (old*count+sum)/(count+n), "
-    "counts and types the node; ext grids and circulation pumps pass in-service rows and their p_bar/p_flow_bar and "
-    "mark the slack-mass derivative; the pressure controller writes controlled_p_bar into PINIT of the controlled "
-    "junction for control_active & in_service rows, types the node PC before the derivatives and zeroes its branch "
-    "derivatives on PC branches, BRANCH_TYPE=PC only for control_active. (R3.3) PL=plift_bar with derivatives (1,-1); "
-    "compressor PL = (PAMB+PINIT)[from]*(ratio-1), 0 for reverse flow; the pump evaluates its curve at a volume flow "
-    "that must equal the volume flow the result extraction reports (liquids) / the inlet volume flow (gases). (R3.4) "
-    "LOAD += group sum of in_service*scaling*sign*nan_to_num(mdot) per junction; sign literals +1/-1/+1; report = "
-    "mdot*scaling on in-service rows at active junctions. Decided: the chain user column -> pit slot -> matrix row kind "
-    "is complete; (R3.5, shared with C06 R6.5) the std-type index of each pump found by np.where over the outer comparison of "
-    "table and lookup is scattered to the pump's own row (index domains of np.where outputs); not decided: that the solve reproduces the value numerically (C05 tolerance).")
+    'Component hooks are summarised per concrete class by forward substitution (cls./super() resolved through the MRO, '
+    'user-table columns, component arrays and index lookups as symbols, masks as guards). (R3.1) the set of flow-'
+    'prescribing components is computed from the repository (create_pit_branch_entries feeds MDOTINIT from a user '
+    'column); for each, adaption_after_derivatives_hydraulic must write the identity quartet JAC_DERIV_DP=0, '
+    'JAC_DERIV_DP1=0, JAC_DERIV_DM=1, LOAD_VEC_BRANCHES=0 on ONE row selection (all rows, or the control_active rows) and'
+    ' leave the other rows untouched. (R3.2) set_fixed_node_entries forms the running mean (old*count+sum)/(count+n), '
+    'counts and types the node; ext grids and circulation pumps pass in-service rows and their p_bar/p_flow_bar and mark '
+    'the slack-mass derivative; the pressure controller writes controlled_p_bar into PINIT of the controlled junction for'
+    ' control_active & in_service rows, types the node PC before the derivatives and zeroes its branch derivatives on PC '
+    'branches, BRANCH_TYPE=PC only for control_active. (R3.3) PL=plift_bar with derivatives (1,-1); compressor PL = '
+    '(PAMB+PINIT)[from]*(ratio-1), 0 for reverse flow; the pump evaluates its curve at a volume flow that must equal the '
+    'volume flow the result extraction reports (liquids) / the inlet volume flow (gases). (R3.4) LOAD += group sum of '
+    'in_service*scaling*sign*nan_to_num(mdot) per junction; sign literals +1/-1/+1; report = mdot*scaling on in-service '
+    'rows at active junctions. (R3.6) several elements may prescribe a value at one junction: every read-modify-write '
+    'store through an index array in set_fixed_node_entries and ConstFlow.create_pit_node_entries (`pit[rows, c] = '
+    'g(pit[rows, c], v)`, `pit[rows, c] += v`) uses rows that are unique by construction -- the keys of a group sum / '
+    'np.unique passed through an index lookup; with a repeated row numpy keeps only the last entry. Decided: the chain '
+    'user column -> pit slot -> matrix row kind is complete; (R3.5, shared with C06 R6.5) the std-type index of each pump'
+    " found by np.where over the outer comparison of table and lookup is scattered to the pump's own row (index domains "
+    'of np.where outputs); not decided: that the solve reproduces the value numerically (C05 tolerance).')
 ASSUMPTIONS = [phys.POSITIVITY_TEXT, "transient=False", "tables are non-empty on the analysed path (len(...) assumed non-zero)"]
 TECHNIQUE = "per-class value numbering of component hooks (MRO-resolved), guarded normal-form comparison, slot filling from the repository"
 
